@@ -16,6 +16,8 @@ R = {
  "C19-e": (5, False, "C19 T4-cut-edges-leave-seen extended: nothing but cloned()/collect()/an identity map between the filter and the reported edges", "a directed 2-cycle v <-> w whose cut arc runs from the higher to the lower label"),
  "C12-e": (5, False, "C12 T9-relators-unmodified (the enumeration stores expanded_relator_set(&rels) as it is)", "a length-two relator joining two different generators (c = b^-1) plus a relator using one of them with mixed signs: Z^2 = <a,b,c | [a,b], b c> enumerated as the Klein bottle group"),
  "C17-e": (5, False, "T15 representatives-not-coarser (see C16-d)", "torus covers whose only size-reducing cut is one of the dropped candidates: 11 of 484 (symbol, dual) verdicts up to 4 chambers"),
+ "C03-e": (5, True, "reported by T14 (added two seeds earlier in the same round for C13-e): the generic lint generalised to an unseen module", "symbols with more than 65535 chambers"),
+ "C04-e": (5, True, "", "fewer chambers than dimensions: 3D symbols with exactly 2 chambers whose chambers differ only in m23"),
  "C20-e": (5, True, "", "IntPartition: the largest element seen is the root of a class with several members, then clone() and a query on a smaller member"),
 }
 for sid, (rnd, first, strength, needs) in R.items():
